@@ -296,3 +296,10 @@ CON = [(WCO, "block_contract_satisfiable"), (WCO, "par_contracts_satisfiable"), 
 for pid, items in (("C05", CON[:1] + CON[2:]), ("C07", CON[:2])):
     if pid in PLAN:
         add_imports(pid, WHI + ["ModelCipher", "ModelCtr", "ProofsCtr", "WholeProc", "WholeCtr", "WholeCtrModel", "WholeCtrVec", "WholeCtrVecModel", "WholePar", "WholeContracts"]); PLAN[pid] += items
+
+# MANTIS parallel ECB (WholeParM.v)
+WPM = "WholeParM.v"
+PPM = [(WPM, "pparM_model"), (WPM, "pparM_final")]
+for pid, items in (("C07", PPM),):
+    if pid in PLAN:
+        add_imports(pid, WHI + ["ModelCipher", "ModelCtr", "ProofsCtr", "WholeProc", "WholeCtr", "WholeCtrModel", "WholePar", "WholeParM"]); PLAN[pid] += items
